@@ -31,6 +31,10 @@ MIN_INSTANCES = 60
 POOL_FIELDS = {'_resources', '_reserved_resources', '_waiting_requests'}
 
 
+def _loop_escapes(loop):
+    return any(isinstance(x, (ast.Break, ast.Continue, ast.Return)) for x in ast.walk(loop))
+
+
 def is_mutation(g, n):
     a = n.ast
     if n.kind != 'stmt' or a is None:
@@ -113,21 +117,28 @@ def check(ctx):
     want = {'reserve_resources': ('in_use + amount', 'cap'), '_release_resources': ('in_use - amount', 'cap'), 'add_resources': ('in_use', 'cap + amount')}
     for op, (wu, wc) in want.items():
         fn = P.method(RM, op)[1]
-        defs = single_defs(fn)
-        stores = [s for s in ast.walk(fn) if isinstance(s, ast.Assign) and isinstance(s.targets[0], ast.Subscript) and is_self_attr(s.targets[0].value, '_resources')]
+        g = ctx.graph(RM, op)
+        # stores into the pool table anywhere in the operation, helpers inlined; values normalised along the chain of frames
+        stores = [n for n in g.nodes.values() if n.kind == 'stmt' and isinstance(n.ast, ast.Assign) and isinstance(n.ast.targets[0], ast.Subscript)
+                  and is_self_attr(n.ast.targets[0].value, '_resources')]
         o.count()
         if not stores:
             o.fail(P, f'ResourceManager.{op}', f'self._resources[name] = ({wu}, {wc})', 'the operation never updates the pool table', file=RM.mod.path, line=fn.lineno)
-        for s in stores:
+        for n in stores:
+            s = n.ast
             o.count()
-            key = ast.unparse(s.targets[0].slice)
+            env = FrameEnv(n.frame)
+            key = N.norm(s.targets[0].slice, env).key()
             v = s.value
+            if isinstance(v, ast.Name):
+                r = env.resolve(v.id)
+                if r is not None:
+                    v, env = r[0], r[1]
             if not (isinstance(v, ast.Tuple) and len(v.elts) == 2):
-                o.fail(P, f'ResourceManager.{op}', s, 'a pool entry must be stored as (in use, capacity)', file=RM.mod.path, line=s.lineno)
+                o.fail(P, f'ResourceManager.{op}', s, 'a pool entry must be stored as (in use, capacity)', node=n)
                 continue
-            u, cap = N.norm(v.elts[0], defs), N.norm(v.elts[1], defs)
+            u, cap = N.norm(v.elts[0], env), N.norm(v.elts[1], env)
             U, C = f'self._resources[{key}][0]', f'self._resources[{key}][1]'
-            amt = [a.arg for a in fn.args.args if a.arg == 'amount']
             amount = 'amount'
             forms = {'in_use': {U: 1}, 'in_use + amount': {U: 1, amount: 1}, 'in_use - amount': {U: 1, amount: -1}, 'cap': {C: 1}, 'cap + amount': {C: 1, amount: 1}}
             new_entry = op == 'add_resources' and u.is_({}, 0) and cap.is_({amount: 1})
@@ -135,7 +146,7 @@ def check(ctx):
                 o.witness((op, 'new-entry'))
                 continue
             if not (u.is_(forms[wu]) and cap.is_(forms[wc])):
-                o.fail(P, f'ResourceManager.{op}', s, f'{op} must store ({wu}, {wc}) for the entry it read; found ({u.key()}, {cap.key()})', file=RM.mod.path, line=s.lineno)
+                o.fail(P, f'ResourceManager.{op}', s, f'{op} must store ({wu}, {wc}) for the entry it read; found ({u.key()}, {cap.key()})', node=n)
             else:
                 o.witness((op, 'update'))
                 o.sample({'operation': op, 'store': ast.unparse(s), 'normal_form': f'({u.key()}, {cap.key()})', 'line': s.lineno})
@@ -171,12 +182,30 @@ def check(ctx):
     fn = P.method(RR, 'merge')[1]
     o.count()
     other = fn.args.args[1].arg
-    adds = [s for s in ast.walk(fn) if isinstance(s, ast.AugAssign) and isinstance(s.target, ast.Subscript) and is_self_attr(s.target.value, '_reserved_resources')]
-    news = [s for s in ast.walk(fn) if isinstance(s, ast.Assign) and isinstance(s.targets[0], ast.Subscript) and is_self_attr(s.targets[0].value, '_reserved_resources')]
     empt = [s for s in ast.walk(fn) if isinstance(s, ast.Assign) and ast.unparse(s.targets[0]) == f'{other}._reserved_resources' and isinstance(s.value, ast.Dict) and not s.value.keys]
-    loops = [l for l in ast.walk(fn) if isinstance(l, ast.For) and ast.unparse(l.iter) == f'{other}._reserved_resources.items()']
-    okm = len(adds) == 1 and isinstance(adds[0].op, ast.Add) and ast.unparse(adds[0].value) == 'amount' and len(news) == 1 and ast.unparse(news[0].value) == 'amount' \
-        and len(empt) == 1 and len(loops) == 1
+    loops = [l for l in ast.walk(fn) if isinstance(l, ast.For) and ast.unparse(l.iter) == f'{other}._reserved_resources.items()'
+             and isinstance(l.target, ast.Tuple) and len(l.target.elts) == 2 and all(isinstance(e, ast.Name) for e in l.target.elts)]
+    kinds = []
+    if len(loops) == 1:
+        kv, av = [e.id for e in loops[0].target.elts]
+        for s_ in ast.walk(loops[0]):
+            if isinstance(s_, (ast.Assign, ast.AugAssign)):
+                t = s_.targets[0] if isinstance(s_, ast.Assign) else s_.target
+                if isinstance(t, ast.Subscript) and is_self_attr(t.value, '_reserved_resources'):
+                    if ast.unparse(t.slice) != kv:
+                        kinds.append('wrong-key')
+                        continue
+                    newv = NR.norm(ast.BinOp(left=ast.Subscript(value=t.value, slice=t.slice, ctx=ast.Load()), op=s_.op, right=s_.value) if isinstance(s_, ast.AugAssign) else s_.value, {})
+                    old_ = f'self._reserved_resources[{kv}]'
+                    if newv.is_({old_: 1, av: 1}):
+                        kinds.append('add')
+                    elif newv.is_({av: 1}):
+                        kinds.append('new')
+                    elif newv.is_({f'self._reserved_resources.get({kv}, 0)': 1, av: 1}):
+                        kinds += ['add', 'new']
+                    else:
+                        kinds.append('other:' + newv.key())
+    okm = len(loops) == 1 and len(empt) == 1 and set(kinds) == {'add', 'new'} and not _loop_escapes(loops[0])
     if not okm:
         o.fail(P, 'ReservedResources.merge', 'self._reserved_resources[name] += amount ... other._reserved_resources = {}',
                'merge must add every holding of the other reservation to this one and leave the other one empty', file=RR.mod.path, line=fn.lineno)
@@ -223,7 +252,7 @@ def check(ctx):
         elif role[0] == 'store' and not (s.cls is RM and s.func.name == '__init__'):
             o.fail(P, s.ctx, s.stmt, 'the pool table is re-bound after construction', file=s.mod.path, line=s.line)
         elif role[0] == 'subscript-store':
-            if s.cls is not RM or s.func.name not in ('add_resources', 'reserve_resources', '_release_resources'):
+            if s.cls is not RM or s.func.name not in inv.covered(P, {'add_resources', 'reserve_resources', '_release_resources'}):
                 o.fail(P, s.ctx, s.stmt, 'a pool entry is written outside add/reserve/release', file=s.mod.path, line=s.line)
             else:
                 o.witness(s.ctx)
@@ -478,7 +507,9 @@ def reserve_shape(ctx, RM, o):
     # the tested request, the iterated request and the returned holdings are the same filtered request
     defs = single_defs(fn)
     tested = ast.unparse(t.ast.args[0]) if t.ast.args else None
-    loops = [l for l in ast.walk(fn) if isinstance(l, ast.For) and any(isinstance(x, ast.Subscript) and is_self_attr(x.value, '_resources') and isinstance(x.ctx, ast.Store) for x in ast.walk(l))]
+    loops = [l for l in ast.walk(fn) if isinstance(l, ast.For) and any(
+        (isinstance(x, ast.Subscript) and is_self_attr(x.value, '_resources') and isinstance(x.ctx, ast.Store)) or
+        (isinstance(x, ast.Call) and isinstance(x.func, ast.Attribute) and is_self_attr(x.func) and inv.method_writes(P, RM, x.func.attr, '_resources')) for x in ast.walk(l))]
     ctor = [x for x in ast.walk(fn) if isinstance(x, ast.Call) and isinstance(x.func, ast.Name) and x.func.id == 'ReservedResources']
     o.count()
     pn = fn.args.args[1].arg
